@@ -395,10 +395,7 @@ theorem run_crashed (m : Module) (wf : m.wf) (k : Crash) (h : run m = .crashed k
     | nil => simp [attrLate] at hl
     | cons a as ih =>
       simp only [attrLate] at hl
-      split at hl
-      · exact ih hl
-      · cases hl; rfl
-      · exact ih hl
+      exact ih hl
   · right
     refine ⟨ha, ?_⟩
     unfold run at h
